@@ -43,6 +43,11 @@ def main(argv=None):
     if not getattr(mod, "NO_FRAMES", False):
         from . import vprop
         obs.append(vprop.frames_ob(prop))
+    if not getattr(mod, "NO_RANDOM", False):
+        from . import vprop
+        ro = vprop.random_ob(prop, a.tier, seed)
+        if ro is not None:
+            obs.append(ro)
     obs = [o for o in obs if (a.tier == "thorough" or o.tier == "quick")]
     if a.only:
         obs = [o for o in obs if a.only in o.id]
